@@ -177,6 +177,55 @@ func socketScenario(sc scen) h.Scenario {
 	}}
 }
 
+// slowDial: the first call's dial takes two minutes (a peer that does not answer the SYN); a second call with a
+// 30 s time-out is issued meanwhile. Its time-out is its own: it must end no later than 30 s after it began,
+// whatever the first call's dial does.
+func slowDialScenario(tr string) h.Scenario {
+	name := tr + "/slow-dial/second-caller-with-timeout"
+	return h.Scenario{Name: name, Quick: 1, Thorough: 2, AllowHang: true, Run: func(ch vs.Chooser, trace bool) (*vs.Sched, h.Outcome) {
+		var res [2]callRes
+		only(tr)
+		dials := 0
+		s := vs.Run(ch, vs.Config{Trace: trace, Dial: func(network, addr string) (vs.Conn, error) {
+			dials++
+			if dials == 1 {
+				vs.Sleep(2 * time.Minute)
+			}
+			if tr == "udp" {
+				return sockfake.UEcho(fmt.Sprintf("uconn%d", dials)), nil
+			}
+			return sockfake.Echo(fmt.Sprintf("conn%d", dials)), nil
+		}}, func() {
+			scheme := map[string]string{"socket": "tcp", "udp": "udp"}[tr]
+			client := core.NewClient(scheme + "://peer/")
+			var wg vs.WaitGroup
+			wg.Add(2)
+			vs.GoFG("caller0", func() { defer wg.Done(); res[0] = doCall(client, context.Background(), "req0", -1) })
+			vs.GoFG("caller1", func() {
+				defer wg.Done()
+				vs.Sleep(time.Second) // the first call is in its dial
+				res[1] = doCall(client, context.Background(), "req1", callTimeout)
+			})
+			wg.Wait()
+		})
+		var o h.Outcome
+		o.Key = fmt.Sprintf("%s/%v %s/%v", errClass(res[0].err), res[0].elapsed, errClass(res[1].err), res[1].elapsed)
+		if s.Pruned || s.Aborted != "" {
+			return s, o
+		}
+		switch {
+		case !res[1].done:
+			o.Viol = append(o.Viol, h.V{Sig: "never-returns|slow-dial-of-another-call|with-timeout", What: fmt.Sprintf("%s: the call with a %v time-out never returns (%s)", name, callTimeout, strings.Join(s.Hangs, "; "))})
+		case res[1].elapsed > callTimeout:
+			o.Viol = append(o.Viol, h.V{Sig: "ends-after-its-timeout|" + tr + "|another-call-is-dialling", What: fmt.Sprintf("%s: the call with a %v time-out ended after %v (%v): it waited for the pool lock that the first call holds while it dials", name, callTimeout, res[1].elapsed, res[1].err)})
+		}
+		if res[0].done && res[0].err == nil && res[0].resp != "re:req0" {
+			o.Viol = append(o.Viol, h.V{Sig: "wrong-response", What: fmt.Sprintf("%s: call 0 got %q", name, res[0].resp)})
+		}
+		return s, o
+	}}
+}
+
 func judge(name string, sc scen, s *vs.Sched, res []callRes, follow callRes, followFails int, pendingConns, pendingCalls, leakedBefore, nconns int) h.Outcome {
 	var o h.Outcome
 	var keys []string
@@ -540,6 +589,9 @@ func main() {
 		scens = append(scens, wsScenario("silent", 1, to, true, 1, 2))
 		scens = append(scens, wsScenario("close", 2, to, false, 1, 2), wsScenario("answer-then-close", 2, to, false, 1, 2))
 		scens = append(scens, udpScenario("reset", 2, to, false, 1, 2))
+		if to > 0 {
+			scens = append(scens, slowDialScenario("socket"), slowDialScenario("udp"))
+		}
 		for _, b := range []string{"answer", "error", "panic", "never"} {
 			scens = append(scens, mockScenario(b, to, false, false))
 		}
